@@ -27,6 +27,7 @@ D = {
  'D11': "D11: an invitation that was already accepted (or one of its sibling rumors carrying the same MLS Welcome) is processed again when it arrives under another wrapper id: process_welcome upserts the group row, so an Active or evicted (Inactive) group is reset to Pending and can be re-activated at its join epoch by accept_welcome",
  'D9': "D9: an API call on SQLite is a sequence of separately committed statements (only snapshot, restore and relay replacement are transactions), and OpenMLS persists the advanced decryption ratchet / deletes the consumed key package before MDK has recorded any effect; a process death in between leaves the event consumed but not applied (offering it again is refused, the message is lost or the member is stuck behind the commit / the invitation can never be accepted) or leaves the MLS state ahead of the group record",
  'D8c': "D8 reached through a crash: the process dies inside the echo of the member's own commit after the rollback snapshot of that epoch was written; the restarted process hydrates that snapshot without the applied commit's timestamp, offering the echo again applies the commit, but the better competing commit that arrives afterwards is no longer recognised as better and is refused (no rollback)",
+ 'D23': "D23: a commit that sets a group's Nostr group id to a value another group of the same client still holds (the other group has given the id up, but this client has not processed that rotation yet) is merged at the MLS level, then the record update is refused by the uniqueness rule on the id: the call reports Unprocessable, the group's MLS state is one epoch ahead of its record for good, and its later events (tagged with the new id) are refused as GroupNotFound",
  'D14': "D14: events are routed by the Nostr group id in the stored record only: after an id rotation (applied, or applied on a losing branch and rolled back) an event tagged with the id that was in force when it was created is unroutable (GroupNotFound, recorded Failed): the winning commit of a race is refused and the member stays on the losing branch (C01); an application message of the previous epoch that arrives after the rotation commit is lost, an own message is never confirmed (C02)",
 }
 def label(s):
@@ -49,6 +50,8 @@ def label(s):
         return 'D6' if 'recipient=pending' in s else 'D16'
     if s.startswith('C16|later-events-processed-differently-after-invitation|'): return 'D6'
     if s.startswith('C06|refused-event-changed-state|') and '|next-epoch|' in s and s.endswith('|mls+record') and ('|commit|' in s or '|proposal|' in s): return 'D18'
+    if s.startswith('C08|two-groups|record-vs-mls:epoch+nostr_group_id|after=g2:takes-the-old-id-commit->Unprocessable|'): return 'D23'
+    if s.startswith('C08|two-groups|messages-not-routed-to-their-group|g2:g2-under-the-reused-id|'): return 'D23'
     if s.startswith('C08|record-vs-mls:') and 'process_welcome(foreign-invitation)->Welcome' in s and 'accept_welcome(own-invitation)->Ok' in s: return 'D11'
     if s.startswith('C12|creator|create_group@') and '|after-reopen:record-differs-from-mls:relays|again:Ok,Ok,Ok' in s: return 'D9'
     if s.startswith('C12|recovery-differs|own-commit-echo|process_message[own-commit-echo]@') and '|again:same-result|' in s: return 'D8c'
